@@ -230,10 +230,14 @@ func (e *Exec) nextTime() int64 {
 
 // pick selects the next thread to run (the caller is parked or finished).
 func (e *Exec) pick() *thread {
+	advanced := false
 	for {
 		e.fireTimers()
 		var opts []*thread
-		curEnabled := e.cur != nil && !e.cur.done && e.cur.isEnabled(e)
+		// The current thread keeps the processor (and switching away from it is a preemption) only if
+		// it can go on right away. Once virtual time had to pass because nobody could run, nobody is
+		// "running": whoever becomes runnable then is chosen freely, in canonical order.
+		curEnabled := !advanced && e.cur != nil && !e.cur.done && e.cur.isEnabled(e)
 		if curEnabled && !e.cur.yielded {
 			opts = append(opts, e.cur)
 		}
@@ -270,6 +274,7 @@ func (e *Exec) pick() *thread {
 				return nil
 			}
 			e.clock = next
+			advanced = true
 			continue
 		}
 		preempt := curEnabled && !e.cur.yielded
